@@ -400,8 +400,18 @@ func (dq *Deque[T]) pop(it *element[T]) (out T, _ bool) {
 
 func (dq *Deque[T]) waitPop(ctx context.Context, direction dqDirection) (out T, _ error) {
 	for {
-		if err := dq.root.getNextOrPrevious(direction).wait(ctx, direction); err != nil {
-			return out, err
+		if dq.closed {
+			return out, ErrQueueClosed
+		}
+
+		// only wait (on the root, for a new first/last element) when
+		// the deque is empty: waiting on the current first element
+		// would block until its neighbor changes even though there
+		// is an item to return.
+		if dq.root.getNextOrPrevious(direction).isRoot() {
+			if err := dq.root.wait(ctx, direction); err != nil {
+				return out, err
+			}
 		}
 
 		it, ok := dq.pop(dq.root.getNextOrPrevious(direction))
